@@ -53,17 +53,19 @@ type Kube struct {
 	ApiVersion string    `json:"apiVersion,omitempty"`
 	Kind       string    `json:"kind"`
 	Events     *[]string `json:"executeHookOnEvent,omitempty"`
-	OnSync     *bool     `json:"executeHookOnSynchronization,omitempty"`
-	KeepFull   *bool     `json:"keepFullObjectsInMemory,omitempty"`
-	NameSel    *NameSel  `json:"nameSelector,omitempty"`
-	LabelSel   *LabelSel `json:"labelSelector,omitempty"`
-	FieldSel   *FieldSel `json:"fieldSelector,omitempty"`
-	Namespace  *NsSel    `json:"namespace,omitempty"`
-	JqFilter   string    `json:"jqFilter,omitempty"`
-	AllowFail  *bool     `json:"allowFailure,omitempty"`
-	Includes   []string  `json:"includeSnapshotsFrom,omitempty"`
-	Queue      string    `json:"queue,omitempty"`
-	Group      string    `json:"group,omitempty"`
+	// WatchEvents is the deprecated spelling still accepted by the v1 schema; executeHookOnEvent has priority
+	WatchEvents *[]string `json:"watchEvent,omitempty"`
+	OnSync      *bool     `json:"executeHookOnSynchronization,omitempty"`
+	KeepFull    *bool     `json:"keepFullObjectsInMemory,omitempty"`
+	NameSel     *NameSel  `json:"nameSelector,omitempty"`
+	LabelSel    *LabelSel `json:"labelSelector,omitempty"`
+	FieldSel    *FieldSel `json:"fieldSelector,omitempty"`
+	Namespace   *NsSel    `json:"namespace,omitempty"`
+	JqFilter    string    `json:"jqFilter,omitempty"`
+	AllowFail   *bool     `json:"allowFailure,omitempty"`
+	Includes    []string  `json:"includeSnapshotsFrom,omitempty"`
+	Queue       string    `json:"queue,omitempty"`
+	Group       string    `json:"group,omitempty"`
 }
 
 type AdmRule struct {
